@@ -265,6 +265,10 @@ func runQueue(c *Ctx) {
 
 // queueScenarios: hand-written corpus cases, run first on every check.
 func queueScenarios(c *Ctx) {
+	c.RunScenario("counter-conservation-stress", func() {
+		counterConservationStress(c)
+		c.Nontrivial()
+	})
 	// A Forbid Job over the limit stays queued until the job controller makes it terminal, so
 	// every pass rejects it again.  RejectJob with the identical annotation (same JobConfig name
 	// and active count in the message) is an Update that changes nothing: the API answers ok
